@@ -139,7 +139,19 @@ fn to_u8(x: usize) -> Result<u8,DYNERR> {
 }
 
 fn get_ts_list(addr: Block,kind: &super::DiskKind) -> Result<(Vec<[usize;2]>,usize),DYNERR> {
+	// every address form belongs to one sector format: 13 sectors, 16 sectors, or the 3.5 inch formats (blocks only)
+	match (&addr,*kind) {
+		(Block::D13(_),super::names::A2_DOS32_KIND) => {},
+		(Block::DO(_),super::names::A2_DOS33_KIND) => {},
+		(Block::CPM(_),super::names::A2_DOS33_KIND) => {},
+		(Block::PO(_),super::names::A2_DOS33_KIND) | (Block::PO(_),super::names::A2_400_KIND) | (Block::PO(_),super::names::A2_800_KIND) => {},
+		_ => {
+			debug!("block address {} does not go with disk kind {}",addr,kind);
+			return Err(Box::new(super::Error::ImageTypeMismatch));
+		}
+	}
 	match addr {
+		Block::D13([_t,s]) if s>=13 => Err(Box::new(super::Error::SectorAccess)),
 		Block::D13([t,s]) => Ok((vec![[t,s]],256)),
 		Block::DO([_t,s]) if s>=skew::DOS_LSEC_TO_DOS_PSEC.len() => Err(Box::new(super::Error::SectorAccess)),
 		Block::DO([t,s]) => Ok((vec![[t,skew::DOS_LSEC_TO_DOS_PSEC[s]]],256)),
